@@ -92,7 +92,7 @@ fn tables(cli: &Cli, rep: &mut Report) {
 
 fn trackers(cli: &Cli, rep: &mut Report) {
     let ctl = if cli.small { None } else { Some(vh::sched::Controller::install()) };
-    let n = cli.cases(200, 4000);
+    let n = cli.cases(400, 4000);
     for k in cli.index_range(n) {
         if k >> 48 != 0 {
             continue;
